@@ -94,5 +94,9 @@ def make(name: str, *args):
 
             # C12: copies of linked surveys (all survey class pairs); C09: an edit through one pair leaves the others' stored metadata alone
             parts.append((1, SurveyScenario(name)))
+        if name == "C12":
+            from .drillhole import DrillholeScenario
+
+            parts.append((1, DrillholeScenario("C12")))      # plain drillholes with depth logs: a copy is edited, the source must not notice
         return Mix(name, parts)
     raise KeyError(f"no scenario for {name}")
